@@ -41,11 +41,11 @@ RULE = (
     "case = (transport udp|tcp|secure, auto_reconnect, DisconnectResponse behaviour ok|0.5 s late|lost, [(event kind, loop iteration)]); event kinds: hb_drop, hb_err (next 4 ConnectionStateRequests unanswered / E_CONNECTION_ID), "
     "srv_disc_own / srv_disc_foreign (server DisconnectRequest), send_fail (a send started at that iteration, its ACKs dropped on UDP), transport_loss (TCP/secure), user_disc (user calls disconnect()), "
     "connect_drop / connect_err / open_refuse (next connect attempts fail); every kind at every iteration 1..N of the fault-free session (N learned by running it) for all 6 variants, "
-    "pairs of events sampled by Hypothesis (biased to adjacent iterations), all pairs of the instantaneous kinds <= 2 iterations apart enumerated (quick; thorough: all kinds, <= 6 apart, x 3 DisconnectResponse behaviours), plus loss x loss/user_disc pairs up to 12 (16) apart with auto_reconnect; ConnectionManager: op sequences report/register/unregister/self-unregistering callback vs a dedup model; "
+    "pairs of events sampled by Hypothesis (biased to adjacent iterations), all pairs of the instantaneous kinds <= 2 iterations apart enumerated (quick; thorough: all kinds, <= 6 apart, x 3 DisconnectResponse behaviours), plus loss x loss/user_disc pairs up to 12 (16) apart with auto_reconnect; triples on the auto-reconnect variants: loss #1 at every iteration, loss #2 in / next to the iteration in which the reconnect started by #1 finishes (learned by running #1 alone), loss #3 1..5 (8) iterations later, optionally user_disc 6 iterations after that, plus Hypothesis-sampled triples; ConnectionManager: op sequences report/register/unregister/self-unregistering callback vs a dedup model; "
     "non-trivial = the injected event changed the wire log relative to the fault-free session (a fault really happened); distinct by case"
 )
 LEVEL_TEXT = "Each fault kind is injected at every loop iteration of a bounded tunnel session (UDP, TCP, IP Secure; auto-reconnect on/off) in virtual time, pairs of faults are sampled; reconnect concurrency, frames after a user disconnect and the reported connection state are decided from one totally ordered log of wire frames, callbacks and markers."
-LEVEL_NOTE = "Schedules are those expressible by the harness: one client, virtual time, events at loop-iteration granularity, a fixed session script; more than two overlapping faults are not explored; routing connections are not driven (the state clauses are checked on tunnels and on ConnectionManager alone)."
+LEVEL_NOTE = "Schedules are those expressible by the harness: one client, virtual time, events at loop-iteration granularity, a fixed session script; more than three overlapping faults are not explored, triples only around the reconnect-completion window and sampled; routing connections are not driven (the state clauses are checked on tunnels and on ConnectionManager alone)."
 ASSUMPTIONS = [
     "single-threaded asyncio on a virtual clock; network delay 5 ms; gateway behaviour limited to the scripted plans of vk/simgw.py",
     "IP Secure: the simulator performs the real session handshake and wraps/unwraps every frame with vk/ref/ipsecure.py (pure-Python X25519, hand-built CCM); PBKDF2 results are memoised by the harness",
@@ -586,6 +586,68 @@ def _adjacent_shard(ctx, transport: str, ar: bool, ka: str, kb: str, dmax: int, 
     ctx.bulk(n, nt, "adjacent-pairs")
 
 
+def _first_reconnect_exit(transport: str, kind: str, k1: int):
+    """Loop iteration in which the reconnect started by a single loss at k1 finishes (None: no reconnect)."""
+    try:
+        obs = execute({"transport": transport, "auto_reconnect": True, "events": [[kind, k1]]})
+    except (BudgetExceeded, Deadlock):
+        return None
+    return next((e["tick"] for e in obs["log"] if e["kind"] == "reconnect-exit" and e["tick"] > k1), None)
+
+
+def _triple_shard(ctx, transport: str, kind1: str, lo: int, hi: int, d3max: int) -> None:
+    """Three losses on an auto-reconnecting tunnel: #1 at every iteration, #2 in (and next to) the iteration in which the
+    reconnect started by #1 finishes - learned by running #1 alone -, #3 one to d3max iterations later while the second
+    reconnect runs; optionally the user disconnects a little later."""
+    N, dig = baseline(transport, True)
+    second = ["srv_disc_own"] if transport == "udp" else ["transport_loss"]  # what can land inside that very iteration
+    third = ["srv_disc_own", "srv_disc_foreign"] if transport == "udp" else ["transport_loss", "srv_disc_own", "srv_disc_foreign"]
+    n = nt = 0
+    for k1 in range(max(lo, 2), min(hi, N) + 1):
+        t_exit = _first_reconnect_exit(transport, kind1, k1)
+        if t_exit is None:
+            continue
+        for k2 in (t_exit - 1, t_exit, t_exit + 1):
+            for kind2 in second:
+                for d3 in range(1, d3max + 1):
+                    for kind3 in third:
+                        tails = [[]] + ([[["user_disc", k2 + d3 + 6]]] if d3 == 2 else [])
+                        for tail in tails:
+                            case = {"transport": transport, "auto_reconnect": True, "disc_resp": "ok", "events": [[kind1, k1], [kind2, k2], [kind3, k2 + d3], *tail]}
+                            r = check_case(ctx, case, dig)
+                            n += 1
+                            if r is not None and r[1]:
+                                nt += 1
+    ctx.bulk(n, nt, "triples:reconnect-completion-window")
+    if lo <= 2 and kind1 == "srv_disc_own":
+        ctx.sample({"triples": transport, "first": kind1, "second": second, "third": third, "third_within": d3max})
+
+
+@st.composite
+def triple_cases(draw):
+    """Sampled triples (+ optional later user disconnect) beyond the enumerated core."""
+    transport = draw(st.sampled_from(["udp", "tcp", "secure"]))
+    N, _ = baseline(transport, True)
+    losses = [k for k in ("srv_disc_own", "srv_disc_foreign", "transport_loss", "send_fail", "hb_err") if k in kinds_for(transport)]
+    k1 = draw(st.integers(2, N))
+    k2 = k1 + draw(st.integers(0, 14))
+    k3 = k2 + draw(st.integers(0, 8))
+    ev = [[draw(st.sampled_from(losses)), k1], [draw(st.sampled_from(losses)), k2], [draw(st.sampled_from(losses)), k3]]
+    if draw(st.booleans()):
+        ev.append(["user_disc", k3 + draw(st.integers(0, 12))])
+    return {"transport": transport, "auto_reconnect": True, "disc_resp": draw(st.sampled_from(["ok", "ok", ["delay", 0.5], "drop"])), "events": ev}
+
+
+def _triple_oracle(ctx, case) -> None:
+    _, dig = baseline(case["transport"], True)
+    r = check_case(ctx, case, dig)
+    ctx.case(repr(sorted(case.items())), nontrivial=bool(r and r[1]), cls=["triple", f"{case['transport']}+ar"], sample={"events": case["events"], "transport": case["transport"]} if len(ctx.samples) < 1 else None)
+
+
+def _triple_hyp_shard(ctx, n: int) -> None:
+    hyp_search(ctx, triple_cases(), _triple_oracle, n, seed_salt=7)
+
+
 @st.composite
 def pair_cases(draw):
     transport, ar = draw(st.sampled_from(VARIANTS))
@@ -743,7 +805,7 @@ def selftest(ctx) -> None:
 
 def _job(ctx, what: str, *args) -> None:
     """One fork pool for everything (forking is the expensive part on a busy box)."""
-    {"single": _single_shard, "adjacent": _adjacent_shard, "pairs": _pair_shard, "cm": _cm_shard}[what](ctx, *args)
+    {"single": _single_shard, "adjacent": _adjacent_shard, "pairs": _pair_shard, "cm": _cm_shard, "triples": _triple_shard, "triples-hyp": _triple_hyp_shard}[what](ctx, *args)
 
 
 def run(ctx) -> None:
@@ -769,6 +831,12 @@ def run(ctx) -> None:
     # second event inside / at the end of the reconnect started by the first one (a reconnect takes 4..12 iterations)
     losses = ["srv_disc_own", "transport_loss"] if ctx.quick else ["srv_disc_own", "srv_disc_foreign", "transport_loss"]
     jobs += [("adjacent", t, True, ka, kb, ctx.n(12, 16), "ok", ctx.n(3, 7)) for t in ("udp", "tcp", "secure") for ka in losses for kb in [*losses, "user_disc"] if ka in kinds_for(t) and kb in kinds_for(t)]
+    # three losses: #2 inside the loop iteration in which the reconnect started by #1 finishes, #3 while the next one runs
+    for t in ("udp", "tcp", "secure"):
+        N, _ = baseline(t, True)
+        firsts = ["srv_disc_own", "send_fail"] if t == "udp" else ["srv_disc_own", "transport_loss"]
+        jobs += [("triples", t, k1kind, lo, lo + 5, ctx.n(5, 8)) for k1kind in firsts for lo in range(2, N + 1, 6)]
+    jobs += [("triples-hyp", ctx.n(40, 1500))] * 16
     parallel(ctx, _job, jobs)
     ctx.notes["adjacent_pairs_enumerated"] = {"kinds": near, "max_iterations_apart": ctx.n(2, 6), "also": "loss x loss/user_disc pairs up to %d iterations apart with auto_reconnect" % ctx.n(12, 16)}
     ctx.exhaustive = False
